@@ -99,7 +99,7 @@ def record_pipeline(b, world, intended, *, inner_fraction, ms=(0,), ks=(), radiu
     """Run the pipeline on the real code; returns list of records (dicts) for TraceSites."""
     recs = []
     want = want or {'Hist', 'Events', 'Prev', 'Next', 'Jumps', 'Mono', 'Matrix', 'Counter', 'Edges', 'Occ',
-                    'AtomLoc', 'JumpDiff', 'Split', 'Rates', 'TrajSplit'}
+                    'AtomLoc', 'OccType', 'JumpDiff', 'Split', 'Rates', 'TrajSplit'}
 
     def add(act, **kw):
         if act in want:
@@ -130,6 +130,9 @@ def record_pipeline(b, world, intended, *, inner_fraction, ms=(0,), ks=(), radiu
         add('Occ', num=[to_int(site.species.num_atoms, T) for site in occ])
         al = tr.atom_locations()
         add('AtomLoc', labels=lab_seq, byLabel=[[codes[k], to_int(v, T * A)] for k, v in sorted(al.items())])
+        ot = tr.occupancy_by_site_type()
+        nlab = {k: list(world.structure.labels).count(k) for k in ot}
+        add('OccType', labels=lab_seq, byLabel=[[codes[k], to_int(v, T * nlab[k])] for k, v in sorted(ot.items())])
     except ValueError as e:
         if 'occupanc' not in str(e).lower():
             raise
